@@ -2061,6 +2061,89 @@ def rule_r9(chk, prog):
     chk.floor('C16.R9', 'adoptions in the ddmin drain loops', n, 2)
 
 
+def rule_r14(chk, prog):
+    chk.rule('C16.R14', 'hierarchical: the symbol / sort tables are rebuilt '
+             'from the current input at the start of every round, on every '
+             'path - no condition ("only if a declaration changed") stands '
+             'between the top of the round loop and the Producer')
+    from ..mustpass import avoiding_paths
+    m = prog.mod('strategy_hierarchical')
+    f = m.func('reduce')
+    cfg = cfg_of(f)
+    prods = [c for c in ast.walk(f) if isinstance(c, ast.Call)
+             and (call_name(c) or '').split('.')[-1] == 'Producer']
+    if not prods:
+        raise AnalysisError('C16.R14: no Producer(..) construction in '
+                            'strategy_hierarchical.reduce')
+    n = 0
+    for c in prods:
+        st = c
+        while st is not None and id(st) not in cfg.node_of:
+            st = getattr(st, '_parent', None)
+        lp = getattr(st, '_parent', None)
+        while lp is not None and not isinstance(lp, (ast.While, ast.For)):
+            lp = getattr(lp, '_parent', None)
+        if st is None or lp is None:
+            raise AnalysisError('C16.R14: the Producer is not built inside '
+                                'a loop')
+        n += 1
+        target = cfg.node_of[id(st)]
+        head = cfg.node_of[id(lp)]
+
+        def collects(nd):
+            a = nd.ast
+            if nd.kind != 'stmt' or a is None:
+                return False
+            return any(isinstance(x, ast.Call) and (call_name(x) or ''
+                                                    ).split('.')[-1] ==
+                       'collect_information' for x in ast.walk(a))
+
+        first = [e for e in head.succ if e.kind in ('true', 'iter')]
+        hit = avoiding_paths(cfg, head, {target}, collects,
+                             first_edges=first)
+        chk.check('C16.R14', 'strategy_hierarchical.reduce',
+                  'collect_information on every path to the Producer',
+                  hit is None,
+                  'a round can reach "Producer(..)" without '
+                  'collect_information(exprs) having run in that round: '
+                  'the tables (sorts of symbols, index numerals, datatype '
+                  'constructors) describe an earlier input - numerals the '
+                  'last simplification introduced are typed Int and '
+                  '"simplified", variables that are gone are proposed',
+                  loc=m.loc(c), nontrivial=True)
+    chk.floor('C16.R14', 'Producer constructions', n, 1)
+
+
+def rule_r15(chk, prog):
+    chk.rule('C16.R15', 'a literal prefix is removed by slicing, not by '
+             'str.strip / lstrip / rstrip with a character set: the set '
+             'also eats payload characters (lstrip("#bx") turns #xbeef into '
+             '"eef")')
+    n = 0
+    for m in prog.pkg_modules():
+        if not (m.name == 'smtlib' or m.name.startswith('mutators')):
+            continue
+        for c in ast.walk(m.tree):
+            if isinstance(c, ast.Call) and isinstance(
+                    c.func, ast.Attribute) and c.func.attr in (
+                        'strip', 'lstrip', 'rstrip') and c.args and \
+                    isinstance(c.args[0], ast.Constant) and isinstance(
+                        c.args[0].value, str):
+                n += 1
+                cs = c.args[0].value
+                bad = len(cs) >= 2 and any(ch.isalnum() for ch in cs)
+                chk.check('C16.R15', m.name, c, not bad,
+                          f'"{unparse(c)[:50]}" strips every leading / '
+                          f'trailing character out of {cs!r}, not the '
+                          'prefix: digits of the literal that happen to be '
+                          'in the set are lost, value and width of the '
+                          'constant are wrong', loc=m.loc(c),
+                          nontrivial=True)
+    chk.instance('C16.R15', 'smtlib, mutators', f'{n} strip calls with a '
+                 'character set examined', True, 'zero-count rule (witness: '
+                 'C16_35)')
+
+
 def run(tier):
     prog = Program()
     chk = Check(
@@ -2106,6 +2189,8 @@ def run(tier):
               'protocol methods store nothing on the object, the class or '
               'module-level containers except option values and constants',
               'a sort or width remembered for another node is used for this one')
+    chk.guard(rule_r14, chk, prog)
+    chk.guard(rule_r15, chk, prog)
     extra = None
     if tier == 'thorough':
         from .. import selftest
